@@ -1011,6 +1011,172 @@ def _quantifier_returns(tree):
                 i += 1
 
 
+def _getter_of(e):
+    """('attr'|'item', key) for operator.attrgetter('a') / itemgetter(k)
+    with one constant argument."""
+    if isinstance(e, ast.Call) and len(e.args) == 1 and not e.keywords and \
+            isinstance(e.args[0], ast.Constant):
+        nm = ast.unparse(e.func)
+        if nm in ('operator.attrgetter', 'attrgetter') and isinstance(
+                e.args[0].value, str) and e.args[0].value.isidentifier():
+            return ('attr', e.args[0].value)
+        if nm in ('operator.itemgetter', 'itemgetter'):
+            return ('item', e.args[0].value)
+    return None
+
+
+def _getter_calls(tree):
+    """``g = operator.attrgetter('a')`` ... ``g(x)`` is ``x.a`` (itemgetter:
+    ``x[k]``), for a local bound once to the getter; so is the direct
+    ``operator.attrgetter('a')(x)``."""
+    for fn in ast.walk(tree):
+        if not isinstance(fn, (ast.FunctionDef, ast.AsyncFunctionDef)):
+            continue
+        stores = {}
+        for n in ast.walk(fn):
+            if isinstance(n, ast.Name) and isinstance(n.ctx, ast.Store):
+                stores[n.id] = stores.get(n.id, 0) + 1
+        getters = {}
+        for n in ast.walk(fn):
+            if isinstance(n, ast.Assign) and len(n.targets) == 1 and \
+                    isinstance(n.targets[0], ast.Name) and stores.get(
+                        n.targets[0].id) == 1:
+                g = _getter_of(n.value)
+                if g:
+                    getters[n.targets[0].id] = g
+
+        class T(ast.NodeTransformer):
+            def visit_Call(self, node):
+                self.generic_visit(node)
+                g = None
+                if isinstance(node.func, ast.Name) and \
+                        node.func.id in getters:
+                    g = getters[node.func.id]
+                elif isinstance(node.func, ast.Call):
+                    g = _getter_of(node.func)
+                if g and len(node.args) == 1 and not node.keywords and not \
+                        isinstance(node.args[0], ast.Starred):
+                    if g[0] == 'attr':
+                        new = ast.Attribute(value=node.args[0], attr=g[1],
+                                            ctx=ast.Load())
+                    else:
+                        new = ast.Subscript(
+                            value=node.args[0],
+                            slice=ast.Constant(value=g[1]), ctx=ast.Load())
+                    return ast.copy_location(new, node)
+                return node
+        if getters or any(isinstance(n, ast.Call) and isinstance(
+                n.func, ast.Call) for n in ast.walk(fn)):
+            T().visit(fn)
+            ast.fix_missing_locations(fn)
+
+
+def _chain_loops(tree):
+    """``for x in itertools.chain(A, B): body`` is ``for x in A: body``
+    followed by ``for x in B: body`` (no else, no break)."""
+    for node in ast.walk(tree):
+        for fld in ('body', 'orelse', 'finalbody'):
+            blk = getattr(node, fld, None)
+            if not (isinstance(blk, list) and blk and isinstance(
+                    blk[0], ast.stmt)):
+                continue
+            i = 0
+            while i < len(blk):
+                st = blk[i]
+                i += 1
+                if not (isinstance(st, ast.For) and not st.orelse and
+                        isinstance(st.iter, ast.Call) and ast.unparse(
+                            st.iter.func) in ('itertools.chain', 'chain')
+                        and 2 <= len(st.iter.args) <= 4 and not
+                        st.iter.keywords and not any(isinstance(
+                            a, ast.Starred) for a in st.iter.args)):
+                    continue
+                if any(isinstance(x, ast.Break) for x in ast.walk(st)):
+                    continue
+                new = []
+                for a in st.iter.args:
+                    lp = ast.For(target=_plain_copy(st.target), iter=a,
+                                 body=_plain_copy(st.body), orelse=[])
+                    new.append(ast.fix_missing_locations(
+                        ast.copy_location(lp, st)))
+                blk[i - 1:i] = new
+                i += len(new) - 1
+
+
+def _generator_loops(tree):
+    """``g = (e for a in xs if c)`` ... ``for x in g: body`` (g bound once,
+    read only there, in the same block) is ``for a in xs: if c: x = e;
+    body``: walking a generator is walking what it walks."""
+    for fn in ast.walk(tree):
+        if not isinstance(fn, (ast.FunctionDef, ast.AsyncFunctionDef)):
+            continue
+        stores, loads = {}, {}
+        for n in ast.walk(fn):
+            if isinstance(n, ast.Name):
+                d = stores if isinstance(n.ctx, (ast.Store, ast.Del)) \
+                    else loads
+                d[n.id] = d.get(n.id, 0) + 1
+        for node in ast.walk(fn):
+            for fld in ('body', 'orelse', 'finalbody'):
+                blk = getattr(node, fld, None)
+                if not (isinstance(blk, list) and blk and isinstance(
+                        blk[0], ast.stmt)):
+                    continue
+                for st in list(blk):
+                    if not (isinstance(st, ast.Assign) and len(
+                            st.targets) == 1 and isinstance(
+                                st.targets[0], ast.Name) and isinstance(
+                                    st.value, (ast.GeneratorExp,
+                                               ast.ListComp)) and len(
+                                        st.value.generators) == 1):
+                        continue
+                    g = st.targets[0].id
+                    if stores.get(g) != 1 or loads.get(g) != 1:
+                        continue
+                    j = blk.index(st)
+                    loop = None
+                    for later in blk[j + 1:]:
+                        if isinstance(later, ast.For) and isinstance(
+                                later.iter, ast.Name) and \
+                                later.iter.id == g and isinstance(
+                                    later.target, ast.Name):
+                            loop = later
+                            break
+                        if any(isinstance(x, ast.Name) and x.id == g
+                               for x in ast.walk(later)):
+                            break
+                    if loop is None:
+                        continue
+                    gen = st.value.generators[0]
+                    inner_names = {x.id for x in ast.walk(gen.target)
+                                   if isinstance(x, ast.Name)}
+                    body_names = {x.id for x in ast.walk(loop)
+                                  if isinstance(x, ast.Name)}
+                    # the generator's own variable must not clash with a
+                    # name the loop (or the function) uses otherwise
+                    if inner_names & (body_names | {
+                            k for k in stores if k not in inner_names and
+                            False}):
+                        continue
+                    bind = ast.copy_location(ast.Assign(
+                        targets=[ast.Name(id=loop.target.id,
+                                          ctx=ast.Store())],
+                        value=st.value.elt), loop)
+                    new_body = [bind] + loop.body
+                    for c in reversed(gen.ifs):
+                        new_body = [ast.copy_location(ast.If(
+                            test=c, body=new_body, orelse=[]), loop)]
+                    tgt = gen.target
+                    for x in ast.walk(tgt):
+                        if isinstance(x, ast.Name):
+                            x.ctx = ast.Store()
+                    loop.target = tgt
+                    loop.iter = gen.iter
+                    loop.body = new_body
+                    ast.fix_missing_locations(loop)
+                    blk.remove(st)
+
+
 def _first_match(tree):
     """``found = next((e for x in xs if c), d)`` - directly, or through a
     name bound to the generator in the statement before and used nowhere
@@ -1321,6 +1487,9 @@ def normalise(tree):
     _unroll_table_loops(tree)
     _table_comprehensions(tree)
     _scope_blocks(tree)
+    _getter_calls(tree)
+    _chain_loops(tree)
+    _generator_loops(tree)
     _plain_idioms(tree)
     _filtered_iteration(tree)
     _conditional_expressions(tree)
